@@ -1328,6 +1328,9 @@ class ContractionTree:
 
         # pre-computed information
         if legs is not None:
+            if len(parent) == self.N:
+                # the root indices must keep the order of the declared output
+                legs = {ix: legs[ix] for ix in self.output if ix in legs}
             self.info[parent]["legs"] = legs
         if cost is not None:
             self.info[parent]["flops"] = cost
